@@ -325,6 +325,13 @@ func ApplyExt(w *WS, e *Ext, s Step) string {
 		e.WrongEst[c.Marker] = true
 		return "wrongestablish " + c.Marker
 	case "set-slow":
+		// the next target (from s.T) that declares a timeout and is not slow yet
+		for k := 0; k < len(w.Targets); k++ {
+			if cand := w.target(s.T + k); cand.Timeout != "" && e.SlowSec[cand.ID()] == 0 {
+				t, id = cand, cand.ID()
+				break
+			}
+		}
 		if t.Timeout == "" || e.SlowSec[id] > 0 {
 			return ""
 		}
